@@ -1,3 +1,4 @@
+from vlib.props import pcommon
 from vlib import framework as fw
 from vlib.monitors import dynmon
 
@@ -17,3 +18,9 @@ def check(run, only=None):
         out = fw.merge_worker_results(results, RULE.format(k=2 if run.tier == "quick" else 3, m=params["max_ops"]))
         out["extra"]["configurations"] = len(cs)
         run.add_bounded(out)
+    if only in (None, "P"):
+        from vlib.companions import parserfuncs as pf
+        pcommon.add_proof(run, "C18", ["parglare.parser.Parser._call_dynamic_filter", "parglare.parser.Parser._check_parser"],
+                          [pf.run_misc],
+                          "_call_dynamic_filter: unmarked decision => True without the filter, marked => the filter's verdict "
+                          "for exactly these arguments; _check_parser raises iff an unhandled (non-dynamic) conflict exists")
